@@ -19,7 +19,7 @@ ASSUMPTIONS = [
 
 
 def budget(tier):
-    return 3000 if tier == "quick" else 100000
+    return 3000 if tier == "quick" else 300000
 
 
 def strategy(tier):
